@@ -208,11 +208,13 @@ Definition x_watch (C : xcfg) (f : frame) (pos : N) (o : oval) (X : xpart) : xpa
   let ts1 := if init then (ts_of f + 2) mod W64 else ts_of f in
   let ts := (ts1 + (W64 - 1)) mod W64 in                       (* timestamp -= 1 *)
   let c := o_cpu o in
-  let p1 := if wp_cpu C && (negb (w_cpu X =? c)%Z || init) && negb (full (pend X))
+  (* without a free slot the old observation is kept: the next hook with room reports the change *)
+  let store := wp_cpu C && (negb (w_cpu X =? c)%Z || init) && negb (full (pend X)) in
+  let p1 := if store
             then pend X ++ [{| a_ev := {| e_time := ts; e_id := C17_EVENT_ID_WATCH_CPU; e_data := [cpu_word c] |};
                                a_idx := pos |}]
             else pend X in
-  let wc := if wp_cpu C then c else w_cpu X in
+  let wc := if store then c else w_cpu X in
   let v := o_var o in
   let copy := match v_copy X with Some y => y | None => v end in
   let differs := wp_var C && negb (full p1) && negb (v =? copy) in          (* memcmp with the thread's copy *)
@@ -512,6 +514,71 @@ Definition agree_x (C : xcfg) (es : list xev) (ostates : list (xobs)) (oitems : 
   let '(l, (_, X)) := xtrace C es xstart in
   list_eqb xo_eqb l ostates && list_eqb oitem_eqb (map oseen (xout X)) oitems.
 
+(* ---------------------------------------------------------------- specification: the whole stream, hook by hook
+   Plain configuration without threshold (every call is recorded), any read= triggers, -W cpu and/or -W var,
+   hooks at least 2 ns apart.  Every hook contributes one chunk, in hook order:
+       entry hook of f :   <watch events of this hook>  ENTRY f  READ_k ..        (k: the read kinds of f)
+       exit hook of f  :   <watch events of this hook>  DIFF_k ..  EXIT f
+   - only the thread's first hook has its watch events (stamped +1 ns) BEHIND "ENTRY f READ_k ..".
+   Which watch events a hook generates is save_watchpoint's decision ([x_watch]: C17_watch_cpu_iff_changed,
+   C17_watch_var_iff_changed, the MAX_EVENT limit counted since the last exit hook); this specification says
+   WHERE they appear in the stream, with which stamp, and what else the stream contains. *)
+Definition hitem (i : item) : oitem := oideal i.
+Fixpoint hspec_go (C : xcfg) (es : list xev) (W : xpart) (stk : list (N * N * oval)) : list oitem :=
+  match es with
+  | [] => []
+  | XEnter a t o :: r =>
+      let W0 := x_first C W o in
+      let W1 := x_watch C (dummy_frame t) (N.of_nat (length stk)) o W0 in
+      let new := map (fun e => hitem (IE (a_ev e))) (skipn (length (pend W0)) (pend W1)) in
+      let rc := OR (t, UFTRACE_ENTRY, RECORD_MAGIC, N.of_nat (length stk), a) in
+      let rd := map (fun e => hitem (IE e)) (reads C a t o) in
+      (if w_inited W0 then new ++ [rc] ++ rd else [rc] ++ rd ++ new)
+      ++ hspec_go C r W1 ((a, t, o) :: stk)
+  | XLeave t o :: r =>
+      match stk with
+      | [] => []
+      | (a, t0, o0) :: stk' =>
+          let W1 := x_watch C (dummy_frame t) (N.of_nat (length stk')) o W in
+          let new := map (fun e => hitem (IE (a_ev e))) (skipn (length (pend W)) (pend W1)) in
+          new ++ map (fun e => hitem (IE e)) (diffs C a t o0 o)
+          ++ [OR (t, UFTRACE_EXIT, RECORD_MAGIC, N.of_nat (length stk'), a)]
+          ++ hspec_go C r (set_pend W1 []) stk'
+      end
+  end.
+Definition hspec (C : xcfg) (es : list xev) : list oitem := hspec_go C es xinit [].
+
+(* ---------------------------------------------------------------- several threads of one process
+   Every thread has its own machine (shadow stack, filter state, pending events, cpu observation, copy of the
+   watched variable); the global watch item of -W var (mcount_watch_update: inited, data) is shared: a thread
+   that notices a change asks the global item and stays silent when another thread reported that value already.
+   (mcount_enabled is process-wide too: histories with trace_on / trace_off are not run through this.) *)
+Definition with_g (gi : bool) (gv : N) (X : xpart) : xpart :=
+  {| xs := xs X; pend := pend X; w_inited := w_inited X; w_cpu := w_cpu X; v_copy := v_copy X;
+     g_init := gi; g_val := gv; xout := xout X |}.
+Fixpoint set_nth {A} (n : nat) (x : A) (d : A) (l : list A) : list A :=
+  match n, l with
+  | O, _ :: r => x :: r
+  | O, [] => [x]
+  | S m, y :: r => y :: set_nth m x d r
+  | S m, [] => d :: set_nth m x d []
+  end.
+Fixpoint xexec_mt (C : xcfg) (es : list (nat * xev)) (ds : list xdstate) (gi : bool) (gv : N)
+  : list xdstate * list (nat * xobs) :=
+  match es with
+  | [] => (ds, [])
+  | (tid, e) :: r =>
+      let D := nth tid ds xstart in
+      let D' := xdstep C (fst D, with_g gi gv (snd D)) e in
+      let '(dl, ol) := xexec_mt C r (set_nth tid D' xstart ds) (g_init (snd D')) (g_val (snd D')) in
+      (dl, (tid, xobs_of D') :: ol)
+  end.
+(* one multi-thread case: the state after every hook (in the order the hooks ran) and every thread's stream *)
+Definition agree_mt (C : xcfg) (es : list (nat * xev)) (ostates : list (nat * xobs)) (oitems : list (list oitem)) : bool :=
+  let '(ds, ol) := xexec_mt C es [] false 0 in
+  list_eqb (fun a b => Nat.eqb (fst a) (fst b) && xo_eqb (snd a) (snd b)) ol ostates &&
+  list_eqb (list_eqb oitem_eqb) (map (fun D => map oseen (xout (snd D))) ds) oitems.
+
 (* table-driven configuration *)
 Definition mkxcfg (b : cfg) (rd : list (N * N)) (wc wv pm : bool) : xcfg :=
   {| xb := b; read_of := assoc 0 rd; wp_cpu := wc; wp_var := wv; pmu_ok := pm |}.
@@ -586,8 +653,9 @@ Definition ok_watch_var (v0 : N) (seq : list N) (l : list oitem) : bool :=
 
 (* ---------------------------------------------------------------- specification: -W cpu in the stream
    Plain configuration without threshold, every call recorded, hooks >= 2 ns apart.  Hook by hook:
-     a cpu event is generated iff the value differs from the previous hook's (first hook: always) and
-     fewer than MAX_EVENT events were generated since the last EXIT was written;
+     a cpu event is generated iff the value differs from the last value reported or confirmed (first hook:
+     always) and fewer than MAX_EVENT events were generated since the last EXIT was written - a change that
+     finds the queue full is not forgotten, the next hook with a free slot reports it;
      it is stamped 1 ns before the hook and written right in front of the hook's record - the thread's
      first event is stamped 1 ns after and written right behind the first ENTRY. *)
 Fixpoint wspec_go (es : list xev) (inited : bool) (prev : Z) (np : N) (stk : list N) : list oitem :=
@@ -599,7 +667,7 @@ Fixpoint wspec_go (es : list xev) (inited : bool) (prev : Z) (np : N) (stk : lis
       let w := OE (if inited then t - 1 else t + 1) C17_EVENT_ID_WATCH_CPU [cpu_word c] in
       let rc := OR (t, UFTRACE_ENTRY, RECORD_MAGIC, N.of_nat (length stk), a) in
       (if gen then (if inited then [w; rc] else [rc; w]) else [rc])
-      ++ wspec_go r true c (if gen then np + 1 else np) (a :: stk)
+      ++ wspec_go r true (if gen || (prev =? c)%Z then c else prev) (if gen then np + 1 else np) (a :: stk)
   | XLeave t o :: r =>
       match stk with
       | [] => []
@@ -608,7 +676,7 @@ Fixpoint wspec_go (es : list xev) (inited : bool) (prev : Z) (np : N) (stk : lis
           let gen := (negb inited || negb (prev =? c)%Z) && (np <? C17_MAX_EVENT) in
           let w := OE (t - 1) C17_EVENT_ID_WATCH_CPU [cpu_word c] in
           (if gen then [w] else []) ++ [OR (t, UFTRACE_EXIT, RECORD_MAGIC, N.of_nat (length stk'), a)]
-          ++ wspec_go r true c 0 stk'
+          ++ wspec_go r true (if gen || (prev =? c)%Z then c else prev) 0 stk'
       end
   end.
 Definition wspec (es : list xev) : list oitem := wspec_go es false 0%Z 0 [].
@@ -698,5 +766,12 @@ Fixpoint wrun_legacy (C : xcfg) (l : list (N * oval)) (X : xpart) : list fev :=
   | (t, o) :: r => let X1 := x_watch_legacy C (dummy_frame t) 0 o X in
                    map a_ev (pend X1) ++ wrun_legacy C r (set_pend X1 [])
   end.
+(* (cpu, before the fix of this round): the new cpu number was remembered even when the queue was full and no
+   event could be stored - that change was never reported *)
+Definition x_watch_cpu_legacy (C : xcfg) (f : frame) (pos : N) (o : oval) (X : xpart) : xpart :=
+  let X' := x_watch C f pos o X in
+  {| xs := xs X'; pend := pend X'; w_inited := w_inited X';
+     w_cpu := if negb (wp_cpu C || wp_var C) then w_cpu X else if wp_cpu C then o_cpu o else w_cpu X;
+     v_copy := v_copy X'; g_init := g_init X'; g_val := g_val X'; xout := xout X' |}.
 (* 35535f9: the invalidation was called with mtdp->idx (one above the exiting frame's index):
    [invalidate (n + 1)] at the exit of frame n *)
